@@ -632,15 +632,26 @@ def _part_b(sh, tier, res):
 # ------------------------------------------------------------------ protocol
 def plan(tier, seed):
     na = 32 if tier == "quick" else 192
-    shards = [{"part": "a", "i": i, "n": na} for i in range(na)]
+    a = [{"part": "a", "i": i, "n": na} for i in range(na)]
     no = 16 if tier == "quick" else 32
-    shards += [{"part": "a-other", "i": i, "n": no} for i in range(no)]
+    a += [{"part": "a-other", "i": i, "n": no} for i in range(no)]
+    b = []
     for name, carriers, gen, cfgs in _levels(tier):
         for ci in carriers:
             n = len(CARRIERS[ci])
             est = _count(name, tier, n) * len(cfgs)
             k = max(1, min(64, est // 25000))
-            shards += [{"part": "b", "level": name, "carrier": ci, "i": i, "n": k} for i in range(k)]
+            b += [{"part": "b", "level": name, "carrier": ci, "i": i, "n": k} for i in range(k)]
+    # interleave the two parts so that a run cut short by the wall cap has covered both evenly
+    shards = []
+    ia = ib = 0
+    while ia < len(a) or ib < len(b):
+        if ib * len(a) <= ia * len(b) and ib < len(b) or ia >= len(a):
+            shards.append(b[ib])
+            ib += 1
+        else:
+            shards.append(a[ia])
+            ia += 1
     return shards
 
 
